@@ -252,6 +252,8 @@ fn emit_pkg(ws: &Path, pkg: &Pkg, rp: &RenderProp, only_keys: Option<&BTreeSet<u
         escapes: 1,
     };
     let features = if rp.dynamic_load { format!("{}, \"dynamic_load\"", emit::FEATURES_STD) } else { emit::FEATURES_STD.to_string() };
+    // VERIF_L2_SHOW_KEYS=1: the packages are built with the documented `show_keys_only` feature (every translation shows its key)
+    let features = if show_keys_mode() { format!("{features}, \"show_keys_only\"") } else { features };
     let flavour_deps = format!("{}vref = {{ path = \"/verif/engine/vref\" }}\n", emit_c02::EXTRA_DEPS);
     let deps = if rp.flavours && rp.opts.formatters {
         flavour_deps.as_str()
@@ -457,6 +459,10 @@ fn compare_pkg(pkg: &Pkg, out: &run::RunOutput, rp: &RenderProp, only_keys: Opti
     Ok(infos)
 }
 
+pub fn show_keys_mode() -> bool {
+    std::env::var("VERIF_L2_SHOW_KEYS").as_deref() == Ok("1")
+}
+
 /// C02: every flavour must show the model's text (hence the same text as every other flavour)
 fn compare_flavours(pkg: &Pkg, out: &run::RunOutput, rp: &RenderProp, only_keys: Option<&BTreeSet<usize>>) -> Result<Vec<CaseInfo>, Failure> {
     let p = &pkg.project;
@@ -487,6 +493,35 @@ fn compare_flavours(pkg: &Pkg, out: &run::RunOutput, rp: &RenderProp, only_keys:
                     (exp_s, exp_v)
                 };
                 let mut seen: BTreeMap<String, String> = BTreeMap::new();
+                if show_keys_mode() {
+                    // with `show_keys_only` the text is the key, whatever the locale and the arguments: what it looks like is
+                    // the library's business, but every flavour must show the same thing and it must name the key
+                    let mut first: Option<(String, String)> = None;
+                    for (f, is_view) in &fl {
+                        let id = format!("{}|{}|{}:{}", k.idx, li, ci, f);
+                        let Some(got) = out.obs.get(&id) else { continue };
+                        let g = if *is_view { run::decode_html(got) } else { got.clone() };
+                        observations += 1;
+                        let last = k.path.last().cloned().unwrap_or_default();
+                        match &first {
+                            None => {
+                                if !g.contains(&last) {
+                                    return Err(fail("show-keys-only:not-the-key", json!({"package": pkg.name, "key": emit::key_tokens(k), "locale": p.locales[li], "flavour": f, "actual": g})));
+                                }
+                                first = Some((f.clone(), g));
+                            }
+                            Some((f0, g0)) => {
+                                if *g0 != g {
+                                    return Err(fail(
+                                        "flavour-differs:show_keys_only",
+                                        json!({"package": pkg.name, "key": emit::key_tokens(k), "locale": p.locales[li], "flavour": f, "actual": g, "first_flavour": f0, "shows": g0, "vars": a.vars}),
+                                    ));
+                                }
+                            }
+                        }
+                    }
+                    continue;
+                }
                 for (f, is_view) in &fl {
                     let id = format!("{}|{}|{}:{}", k.idx, li, ci, f);
                     let got = out.obs.get(&id);
